@@ -1323,6 +1323,56 @@ Section Rename.
 End Rename.
 
 (* ------------------------------------------------------------------ *)
+(** * The hypotheses are satisfiable *)
+
+Example inv_example_F1 : af := {| args := [1; 2]; atts := [(1, 2)] |}.
+Example inv_example_F2 : af := {| args := [3; 4]; atts := [(3, 4); (4, 3)] |}.
+
+Example inv_example_wf1 : wf inv_example_F1.
+Proof.
+  split.
+  - repeat constructor; cbn [In]; lia.
+  - intros a b [H|[]]. inversion H; subst. cbn [args inv_example_F1 In]. auto.
+Qed.
+
+Example inv_example_wf2 : wf inv_example_F2.
+Proof.
+  split.
+  - repeat constructor; cbn [In]; lia.
+  - intros a b [H|[H|[]]]; inversion H; subst; cbn [args inv_example_F2 In]; auto.
+Qed.
+
+Example inv_example_disjoint :
+  forall a, In a (args inv_example_F1) -> ~ In a (args inv_example_F2).
+Proof. intros a H1 H2. cbn [args inv_example_F1 inv_example_F2 In] in *. lia. Qed.
+
+Example inv_example_equiv :
+  af_equiv inv_example_F2 {| args := [4; 3]; atts := [(4, 3); (3, 4); (4, 3)] |}.
+Proof.
+  apply af_equiv_lists.
+  - intros a. cbn [In]. tauto.
+  - intros p. cbn [In]. tauto.
+Qed.
+
+Example inv_example_inj : inj_on (fun a => a + 10) (args inv_example_F1).
+Proof. intros a b _ _ H. lia. Qed.
+
+Example inv_example_union_st :
+  ext ST (disjoint_union inv_example_F1 inv_example_F2) ([1] ++ [4]).
+Proof.
+  apply (ext_union_app _ _ inv_example_wf1 inv_example_wf2 inv_example_disjoint ST);
+    apply extb_ext; reflexivity.
+Qed.
+
+Example inv_example_rename_st :
+  ext ST (rename (fun a => a + 10) inv_example_F1) (map (fun a => a + 10) [1]).
+Proof.
+  apply (ext_rename _ _ inv_example_wf1 inv_example_inj ST [1]).
+  - intros a [H|[]]. subst a. left. reflexivity.
+  - apply extb_ext. reflexivity.
+Qed.
+
+(* ------------------------------------------------------------------ *)
 Print Assumptions ext_af_equiv.
 Print Assumptions cred_af_equiv.
 Print Assumptions skep_af_equiv.
